@@ -31,6 +31,7 @@ type faBox struct {
 	Nref    int    `json:"nref"`
 	Level   string `json:"level"`
 	Ntracks int    `json:"ntracks"`
+	Truns   int    `json:"truns"`
 	Ntfra   int    `json:"ntfra"`
 }
 
@@ -41,6 +42,7 @@ type faCase struct {
 		Segsidx int    `json:"segsidx"`
 		Emsg    string `json:"emsg"`
 		Ntracks int    `json:"ntracks"`
+	Truns   int    `json:"truns"`
 		Flags   string `json:"flags"`
 	} `json:"p"`
 	File      []faBox   `json:"file"`
@@ -108,12 +110,18 @@ func baseTime(fragNr, track int) int64 {
 // decrypted file, what `add-sidx -removeEnc` is meant to strip).
 var c12EncBoxes bool
 
-func mMultiFragment(fragNr, ntracks int) (moof, mdat []byte) {
+// truns: track runs per track fragment (FileAsm.tla p.truns): 2 = every sample in its own trun
+func mMultiFragment(fragNr, ntracks, truns int) (moof, mdat []byte) {
 	var payload []byte
 	build := func(offs []int64) []byte {
 		var trafs []byte
 		for t := 1; t <= ntracks; t++ {
-			kids := [][]byte{mTfhd(0x20000, int64(t), 0, 0, 0, 0, 0), mTfdt(1, baseTime(fragNr, t)), mTrun(1, 0xf01, offs[t-1], 0, fragSamples(fragNr, t))}
+			kids := [][]byte{mTfhd(0x20000, int64(t), 0, 0, 0, 0, 0), mTfdt(1, baseTime(fragNr, t))}
+			if smp := fragSamples(fragNr, t); truns == 2 && len(smp) == 2 {
+				kids = append(kids, mTrun(1, 0xf01, offs[t-1], 0, smp[:1]), mTrun(1, 0xf01, offs[t-1]+smp[0].Size, 0, smp[1:]))
+			} else {
+				kids = append(kids, mTrun(1, 0xf01, offs[t-1], 0, smp))
+			}
 			if c12EncBoxes {
 				n := len(fragSamples(fragNr, t))
 				ivs := make([]byte, 8*n)
@@ -164,7 +172,7 @@ func (c *faCase) materialise() [][]byte {
 		case "emsg":
 			out[i] = mEmsg(int64(b.Frag))
 		case "moof":
-			out[i], out[i+1] = mMultiFragment(b.Frag, c.P.Ntracks)
+			out[i], out[i+1] = mMultiFragment(b.Frag, c.P.Ntracks, c.P.Truns)
 		case "mdat":
 			// built with its moof
 		case "sidx":
